@@ -19,8 +19,9 @@ PID = "C09"
 RULE = (
     "complete products: (a) images x option combinations as declared per block (unrefined: full option product on all binary images of "
     "the small shapes; refined: all 3x3 binary images and the field catalogue with three refine_args settings); (b) droplet catalogue x grid "
-    "catalogue; (c) histories over the tracking alphabets; (d) field sequences of length 3 over a 4-field alphabet; non-trivial = "
-    "field / droplet is not identically zero"
+    "catalogue; (c) histories over the tracking alphabets; (d) field sequences of length 3 over a 4-field alphabet; (e) tracking with a polar / spherical / cylindrical grid supplied, all histories of "
+    "<= 3 frames over 6 frames; (f) refine_droplet called directly on the droplet catalogue (incl. perturbed classes without modes) x 3 fields x 2 option sets; "
+    "non-trivial = field / droplet is not identically zero"
 )
 ASSUMPTIONS = [
     "fields restricted to the enumerated images / catalogue; grids up to 12 cells per axis; mild anisotropy",
@@ -122,6 +123,8 @@ def blocks(tier, seed):
     out.append({"part": "render-mismatch"})
     for cfg in tr.configs():
         out.append({"part": "tracking", "cfg": cfg, "phase": 0.0})
+    out.append({"part": "tracking-symgrid"})
+    out.append({"part": "refine-direct"})
     out.append({"part": "trackers"})
     out.append({"part": "bad-input"})
     return out
@@ -177,6 +180,34 @@ def cases(block):
             blk = {"alph": alph, "phase": block["phase"], "cfg": block["cfg"], "maxn": maxn, "ordered": False, "depth": depth, "first": "all", "times": times}
             for h in tr.histories(blk):
                 yield {"part": p, "block": blk, "hist": h}
+    elif p == "tracking-symgrid":
+        # tracking with a grid of a symmetric family supplied (droplets centred / on the axis)
+        grids = [{"kind": "polar", "n": 8, "R": 8.0}, {"kind": "sph", "n": 8, "R": 8.0}, {"kind": "cyl", "shape": [6, 10], "R": 6.0, "z": [0.0, 10.0], "periodic_z": False},
+                 {"kind": "cyl", "shape": [6, 10], "R": 6.0, "z": [-5.0, 5.0], "periodic_z": True}]
+        F = [[], [0], [1], [2], [0, 2], [1, 2]]
+        for g in grids:
+            for method, md in (("overlap", None), ("distance", None), ("distance", 1.5)):
+                for n in (2, 3):
+                    for hist in itertools.product(F, repeat=n):
+                        yield {"part": p, "grid": g, "method": method, "max_dist": md, "hist": [list(f) for f in hist]}
+    elif p == "refine-direct":
+        # refining catalogue droplets directly (incl. perturbed classes WITHOUT modes, zero radius / width) against catalogue fields
+        for g in cat_grids():
+            dim = geom.dim_of(g)
+            if min(g.get("shape", [g.get("n")])) < 3:
+                continue
+            for di, (cls, ddim, kw) in enumerate(DROPS + DROPS_NOMODES):
+                if ddim != dim:
+                    continue
+                if cls == "PerturbedDroplet3DAxisSym" and g["kind"] != "cyl":
+                    continue  # (axisymmetric droplets on Cartesian grids are rendered in C03; here: the grids they are located on)
+                if cls == "PerturbedDroplet3D" and g["kind"] == "cyl":
+                    continue
+                if kw.get("radius", 1) > 10:
+                    continue
+                for fname in ("blob", "zeros", "noise1"):
+                    for ai in (0, 2):
+                        yield {"part": p, "grid": g, "drop": di, "field": fname, "rargs": ai}
     elif p == "trackers":
         for g in (cart((12, 12), (True, True)), cart((10,), (False,)), {"kind": "cyl", "shape": [6, 10], "R": 6.0, "z": [0.0, 10.0], "periodic_z": False}):
             names = ["zeros", "blob", "noise1"]
@@ -200,6 +231,12 @@ DROPS = [
     ("PerturbedDroplet3D", 3, dict(radius=2.0, interface_width=0.5, amplitudes=[1.0, -1.0, 1.0])), ("PerturbedDroplet3D", 3, dict(radius=1.5, interface_width=None, amplitudes=[0.0] * 8)),
     ("PerturbedDroplet3D", 3, dict(radius=1.5, interface_width=0.0, amplitudes=[0.1] * 24)),
     ("PerturbedDroplet3DAxisSym", 3, dict(radius=2.0, interface_width=0.5, amplitudes=[1.0, -1.0])), ("PerturbedDroplet3DAxisSym", 3, dict(radius=0.0, interface_width=0.0, amplitudes=[0.2, 0.0, 0.0, -0.4])),
+]
+
+
+DROPS_NOMODES = [
+    ("PerturbedDroplet2D", 2, dict(radius=2.0, interface_width=0.7, amplitudes=None)), ("PerturbedDroplet2D", 2, dict(radius=2.0, interface_width=None, amplitudes=[])),
+    ("PerturbedDroplet3D", 3, dict(radius=1.6, interface_width=0.7, amplitudes=None)), ("PerturbedDroplet3DAxisSym", 3, dict(radius=2.0, interface_width=0.7, amplitudes=None)),
 ]
 
 
@@ -278,6 +315,61 @@ def run_case(case, ctx):
         ctx.check("C09.finite", all(np.all(np.isfinite(np.asarray(d.position))) and np.isfinite(d.radius) for t in tracks for d in t.droplets) and all(np.isfinite(float(x)) for t in tracks for x in t.times), None, {"part": "tracking"})
         if any(len(f) == 0 for f in hist):
             ctx.count("time-course-with-empty-frame")
+        return
+    if p == "tracking-symgrid":
+        from droplets import DropletTrackList, Emulsion, EmulsionTimeCourse, SphericalDroplet
+
+        g = case["grid"]
+        grid = geom.make_grid(g)
+        if g["kind"] == "cyl":
+            types = [([0.0, 0.0, g["z"][0] + z], r) for z, r in ((2.0, 1.2), (3.5, 1.0), (7.5, 1.5))]
+        else:
+            types = [([0.0] * geom.dim_of(g), r) for r in (1.0, 2.5, 4.0)]
+        etc = EmulsionTimeCourse([Emulsion([SphericalDroplet(np.array(types[i][0]), types[i][1]) for i in fr]) for fr in case["hist"]], times=[0.5 * i for i in range(len(case["hist"]))])
+        tags = {"part": p, "method": case["method"], "grid": g["kind"]}
+        kw = {} if case["max_dist"] is None else {"max_dist": case["max_dist"]}
+        try:
+            tracks = DropletTrackList.from_emulsion_time_course(etc, method=case["method"], grid=grid, **kw)
+            ctx.op(len(case["hist"]))
+        except Exception as e:  # noqa
+            ctx.check("C09.no-raise", False, {"exc": repr(e)[:300]}, tags)
+            return
+        ctx.check("C09.no-raise", True)
+        ctx.count("tracking-with-symmetric-grid")
+        ctx.check("C09.finite", sum(len(t) for t in tracks) == sum(len(f) for f in case["hist"]) and all(np.all(np.isfinite(np.asarray(d.position))) and np.isfinite(d.radius) for t in tracks for d in t.droplets), None, tags)
+        return
+    if p == "refine-direct":
+        from pde import ScalarField
+
+        from droplets import droplets as dm
+        from droplets.image_analysis import refine_droplet
+
+        g = case["grid"]
+        grid = geom.make_grid(g)
+        cls, ddim, kw = (DROPS + DROPS_NOMODES)[case["drop"]]
+        kw = dict(kw)
+        if kw.get("amplitudes") is not None:
+            kw["amplitudes"] = np.array(kw["amplitudes"], float)
+        if g["kind"] == "cart":
+            c = [g["origin"][a] + (g["shape"][a] * 0.4 + 0.2) * g["dx"][a] for a in range(ddim)]
+        elif g["kind"] == "cyl":
+            c = [0.0, 0.0, 0.5 * (g["z"][0] + g["z"][1]) + 0.2]
+        else:
+            c = [0.0] * ddim
+        tags = {"part": p, "grid": g["kind"], "cls": cls, "modes": 0 if kw.get("amplitudes") is None else len(kw["amplitudes"]), "rargs": "+".join(sorted(RARGS[case["rargs"]])) or "default"}
+        field = ScalarField(grid, cat_field(g, case["field"]))
+        try:
+            d = getattr(dm, cls)(np.array(c, float), **kw)
+            res = refine_droplet(field, d, **dict(RARGS[case["rargs"]]))
+            ctx.op()
+        except Exception as e:  # noqa
+            ctx.check("C09.no-raise", False, {"exc": repr(e)[:300], "field": case["field"]}, tags)
+            return
+        ctx.check("C09.no-raise", True)
+        ctx.count("directly-refined-candidates")
+        if tags["modes"] == 0 and cls.startswith("Perturbed"):
+            ctx.count("perturbed-candidates-without-modes")
+        ctx.check("C09.finite", finite_em([res]), {"result": str(res)}, tags)
         return
     if p == "trackers":
         return run_trackers(case, ctx)
@@ -407,4 +499,4 @@ def run_trackers(case, ctx):
 
 
 def expected_positive(tier):
-    return ["C09.no-raise", "C09.finite", "C09.documented-error", "non-zero-field", "refined-results", "time-course-with-empty-frame", "requests-with-worker-processes"]
+    return ["C09.no-raise", "C09.finite", "C09.documented-error", "non-zero-field", "refined-results", "time-course-with-empty-frame", "requests-with-worker-processes", "tracking-with-symmetric-grid", "directly-refined-candidates", "perturbed-candidates-without-modes"]
